@@ -6,6 +6,7 @@ runs ./check <prop> (quick) against a patched copy; on success stores it under /
 import json, os, shutil, subprocess, sys, tempfile
 prop, n = sys.argv[1], sys.argv[2]
 src = sys.argv[sys.argv.index("--src") + 1] if "--src" in sys.argv else "/tmp/seed_out"
+tag = sys.argv[sys.argv.index("--tag") + 1] if "--tag" in sys.argv else ""
 d = os.path.join(src, prop, n)
 wt = tempfile.mkdtemp(prefix="vseed_", dir="/tmp"); os.rmdir(wt)
 def sh(cmd, **kw):
@@ -31,7 +32,7 @@ tail = [l for l in r.stdout.splitlines() if l.strip()][-6:]
 meta["check_quick"] = {"exit": r.returncode, "output_tail": tail}
 meta["detected"] = r.returncode == 1 and any(l.startswith("VIOLATION property=%s" % prop) for l in r.stdout.splitlines())
 meta["needs_to_manifest"] = open(os.path.join(d, "README.md")).read()[:1500]
-out = "/verif/seeded/%s-%s" % (prop, n)
+out = "/verif/seeded/%s-%s%s" % (prop, tag, n)
 os.makedirs(out, exist_ok=True)
 shutil.copy(patch, os.path.join(out, "patch.diff")); shutil.copy(os.path.join(d, "demo.py"), out); shutil.copy(os.path.join(d, "README.md"), out)
 json.dump(meta, open(os.path.join(out, "meta.json"), "w"), indent=1)
